@@ -1,5 +1,5 @@
 (* C18 - run records describe the run that produced the stored result.  Statements only.
-   run_info tc o ins is the record (task, value repr of every parameter, key of every input task, config
+   run_info tc o n ins is the record (task, value repr of every parameter, key of every input task, config
    name, namespace, context name, records added during run in order); the messages a run logs are the
    harness tokens (framing lines, timestamps, user and version fields are abstracted away). *)
 From Coq Require Import String Ascii List Bool Arith ZArith.
@@ -7,28 +7,31 @@ From TC Require Import PyStr Value Dict Repr Param Config Key Chain Eval EvalPro
 Import ListNotations.
 
 (* after a successful run - first computation, retry after a failure, forced recomputation - record and
-   log are those of this run only *)
+   log are those of this run only: the record carries the ordinal n of the run among all runs ever started on
+   the data directory (the generated run records it), and n is larger than the number of runs started before
+   this request - the record is not the one of any earlier run *)
 Theorem C18_record_of_latest_run : forall classes run f w id o tc w' v,
   nth_error (w_objs w) id = Some o -> cls_of classes o = Some tc ->
   os_mem (state_of w id) = None ->
   (os_forced (state_of w id) = true \/ persisting (c_data tc) = false \/
    dget (result_path tc o) (mkdirs (dir_of_slug (c_slug tc)) (w_store w)) = None) ->
   eval classes run (S f) w id = (w', inl v) ->
-  exists ins, v = run (o_cls o) (persisted_reprs o) ins /\
-              dget (info_path tc o) (w_store w') = Some (FInfo (run_info tc o ins)) /\
+  exists n ins, List.length (w_runlog w) < n <= List.length (w_runlog w') /\
+              v = run (o_cls o) (persisted_reprs o) ins /\
+              dget (info_path tc o) (w_store w') = Some (FInfo (run_info tc o n ins)) /\
               dget (log_path tc o) (w_store w') = Some (FLog [run_token tc]) /\
               (persisting (c_data tc) = true -> dget (result_path tc o) (w_store w') = Some (FValue v)).
 Proof. exact successful_run_writes_its_record. Qed.
 Print Assumptions C18_record_of_latest_run.
 
 (* the record names every parameter (also the ones excluded from persistence) and every input key *)
-Theorem C18_record_contents : forall tc o ins,
-  run_info tc o ins =
+Theorem C18_record_contents : forall tc o n ins,
+  run_info tc o n ins =
   VDict [ (lit "config", VDict [ (lit "context", match o_ctxname o with Some n => VStr n | None => VNone end);
                                  (lit "name", VStr (o_cfgname o ++ lit "/" ++ o_fullname o));
                                  (lit "namespace", match o_ns o with Some n => VStr n | None => VNone end) ]);
           (lit "input_tasks", VDict (isort skv_leb (map (fun nk => (fst nk, VStr (snd nk))) (o_inkeys o))));
-          (lit "log", VList (run_records ins));
+          (lit "log", VList (run_records n ins));
           (lit "parameters", VDict (isort skv_leb (map (fun pv => (pd_name (fst pv), VStr (value_repr (fst pv) (fst (snd pv))))) (o_params o))));
           (lit "task", VStr (c_slug tc)) ].
 Proof. reflexivity. Qed.
